@@ -72,7 +72,7 @@ AVOID = {
     'F41': True,    # #LINK(map#address) with a non-default AddressAnchor where the address is not converted
     'F42': False,   # (repaired in /repo) single-page mode: operand that addresses an @remote entry is linked to the current page
     'F43': True,    # -j NAME with a StyleSheetPath directory that does not exist yet: FileNotFoundError
-    'F44': True,    # #LINK(ListItems/BulletPoints box page#anchor)() with blank link text: ValueError
+    'F44': False,   # (repaired in /repo) #LINK(ListItems/BulletPoints box page#anchor)() with blank link text: ValueError
     'F45': True,    # #LINK(custom memory map) from a secondary disassembly whose entries would not appear on that map
     'F46': True,    # #R addr@id used inside disassembly id itself (e.g. #R32768@main in the main skool file): "Address not found"
 }
@@ -1116,8 +1116,8 @@ def check_tree(tree, prefix, announced, model, kinds, fallback=None):
     for fname in sorted(tree):
         if tree[fname] is None or fname in ok_files:
             continue
-        if fname in expected_entry_files and pjoin(posixpath.dirname(fname)) in {pjoin(prefix, x) for x in dirs}:
-            continue
+        if pjoin(posixpath.dirname(fname)) in {pjoin(prefix, x) for x in dirs} and (fname in expected_entry_files or not model.get('pages')):
+            continue      # (a literal replay case carries no page model: "Writing disassembly files in <dir>" accounts for the directory)
         probs.append(('unannounced-html', '%s exists but no "Writing" line accounts for it' % fname))
     return probs
 
